@@ -272,11 +272,7 @@ def add_aliases(rng, inst, solvable=False):
             elif r < 0.5:
                 sd = {"t": sd["t"], "v": [[0.0 if rng.random() < 0.4 else x for x in row] if isinstance(row, list)
                                           else (0.0 if rng.random() < 0.4 else row) for row in sd["v"]]}
-            if sd is None and sign < 0:
-                # a None side under a negated alias raises TypeError in AliasDict.__setitem__ (-None) on the
-                # unchanged tree (reported to the coordinator): the main stream says "unbounded" with ∓inf there
-                sd = sg * INF
-            v[sk] = sd
+            v[sk] = sd   # a None side stays None also under a negated alias (F56, repaired)
         kinds[v["name"]] = list(kinds.get(v["name"], ())) + ["alias%+d" % sign]
     return inst
 
@@ -937,18 +933,15 @@ CORPUS = [
                     nokey=True),
                dict(name="ev0", kind="extra", size=1, times=[0.0], nom=1.0, mode=1, nokey=False,
                     lo={"t": [0.5, 1.0], "v": [-2.0, -3.0]}, hi=None)]),
+    # F56 (fixed in d2a94b0): a None side in a pair keyed by a negated alias: bounds()["neg_x0"] = (None, 1.0)
+    # means x0 >= -1, unbounded above (the code raised TypeError on -None)
+    dict(times=[0.0, 1.0, 2.0], E=1, theta=1.0, hist=[{}],
+         vars=[dict(name="x0", kind="state", size=1, times=[0.0, 1.0, 2.0], nom=1.0, mode=0, nokey=False,
+                    lo=-1.0, hi=None, bkey=dict(name="neg_x0", sign=-1)),
+               dict(name="u0", kind="control", size=1, times=[0.0, 1.0, 2.0], nom=2.0, mode=0, nokey=False,
+                    lo=None, hi=0.0, bkey=dict(name="neg_u0", sign=-1))],
+         aliases=[dict(name="neg_x0", of="x0", sign=-1), dict(name="neg_u0", of="u0", sign=-1)]),
 ]
-
-
-def probe_none_under_negated_alias(c):
-    """input class kept out of the main alias stream: a `None` side in a pair keyed by a negated alias
-    (recorded in the distribution, not judged: `-None` raises TypeError in AliasDict.__setitem__)"""
-    inst = dict(times=[0.0, 1.0, 2.0], E=1, theta=1.0, hist=[{}],
-                vars=[dict(name="x0", kind="state", size=1, times=[0.0, 1.0, 2.0], nom=1.0, mode=0, nokey=False,
-                           lo=-1.0, hi=None, bkey=dict(name="neg_x0", sign=-1))],
-                aliases=[dict(name="neg_x0", of="x0", sign=-1)])
-    r = run_real(inst)
-    c.hit("alias/none-side-under-negated-alias: " + ("raises " + r[1].split(":")[0] if r[0] == "raise" else "accepted"))
 
 
 def run(c):
@@ -1007,7 +1000,6 @@ def run(c):
     stream_interp(c, c.n(600, 8000))
     stream_solve(c, c.n(10, 60))
     stream_solve(c, c.n(5, 30), alias=True)
-    probe_none_under_negated_alias(c)
     stream_sources(c, c.n(3, 25))
     c.notes.append("random streams are samples; the unbounded claim is carried by the theorems; the oracle "
                    "re-states the property on the real lbx/ubx of every generated instance")
